@@ -154,3 +154,8 @@ _p("C20", "The agent is a pure function of its inputs (sans-IO)", "exploration",
    "Direct observation of ambient clock reads (must be 0; the interposer is probed live in every process) plus metamorphic replay equality over ~10^4..10^6 runs.",
    "trusted: symbol interposition sees libc clock entry points only; other ambient channels (environment, files) would show up only if they influence replies",
    layers=["miri"])
+
+# Every thorough run also executes the property's quick workload (another seed) on an
+# AddressSanitizer build of the harness (tools/layers.py, layer "asan").
+for _k, _v in PROPS.items():
+    _v["layers"] = ["asan"] + [l for l in _v.get("layers", []) if l != "asan"]
